@@ -200,9 +200,13 @@ impl TopicCleanTracker {
 
     fn spawn_persister(tracker: &Arc<Self>, rx: mpsc::Receiver<String>) {
         let weak = Arc::downgrade(tracker);
+        #[cfg(walrus_verif)]
+        let verif_ticket = crate::wal::verif::persister_register();
         thread::spawn(move || {
             let mut pending = HashSet::new();
             loop {
+                #[cfg(walrus_verif)]
+                crate::wal::verif::persist_gate(&verif_ticket);
                 match rx.recv_timeout(Duration::from_millis(5)) {
                     Ok(topic) => {
                         pending.insert(topic);
